@@ -781,6 +781,14 @@ def c_rtree(rng):
     q = qlo + [a + float(rng.choice([0, 1, 2, 4, 20])) for a in qlo]
     if rng.random() < 0.15:
         q = [-100.0] * d + [100.0] * d
+    if rng.random() < 0.15:
+        # unbounded queries: everything, or half-open in some dimension
+        for k in range(d):
+            r = rng.random()
+            if r < 0.4:
+                q[k] = float('-inf')
+            if 0.2 < r < 0.7:
+                q[d + k] = float('inf')
     recipe = {'boxes': boxes.tolist(), 'page_size': page, 'p': p, 'query': q}
     from .registry import note_input
     note_input(recipe, nontrivial=n > 0)
